@@ -1,6 +1,7 @@
 package main
 
 import (
+	"errors"
 	"context"
 	"fmt"
 	"net/http"
@@ -364,6 +365,8 @@ type SimConn struct {
 	KeepBody    bool
 	Writes      int
 	Flushes     int
+	FailWrite   int    // >0: the FailWrite-th Write fails ...
+	FailMode    string // ... "panic" (the connection is gone: net/http aborts the handler) or "err"
 }
 
 func NewConn() *SimConn { return &SimConn{hdr: http.Header{}} }
@@ -384,6 +387,12 @@ func (c *SimConn) Write(b []byte) (int, error) {
 		c.WriteHeader(http.StatusOK)
 	}
 	c.Writes++
+	if c.FailWrite > 0 && c.Writes == c.FailWrite {
+		if c.FailMode == "panic" {
+			panic(http.ErrAbortHandler)
+		}
+		return 0, errors.New("injected-write-error")
+	}
 	c.BodyLen += len(b)
 	if c.KeepBody {
 		c.Body = append(c.Body, b...)
